@@ -327,6 +327,12 @@ func Method(name string, recv Pat, args ...Pat) Pat {
 	return func(v ssa.Value, b *Bind) bool {
 		c, ok := Unwrap(v).(*ssa.Call)
 		if !ok {
+			// the same value read directly from the field the getter returns
+			if len(args) == 0 {
+				if base, fld := fieldRead(Unwrap(v)); fld != nil && GetterField(v, base.Type(), name) == fld {
+					return recv(base, b)
+				}
+			}
 			return false
 		}
 		if c.Call.IsInvoke() {
@@ -492,4 +498,55 @@ func TypeAssertOf(typeName string, x Pat) Pat {
 func TypeNameIs(t types.Type, name string) bool {
 	s := types.TypeString(t, nil)
 	return s == name || strings.ReplaceAll(s, ModulePath+"/", "") == name
+}
+
+// fieldRead: v is x.f read from a struct value or through a pointer; returns
+// x and the field.
+func fieldRead(v ssa.Value) (ssa.Value, *types.Var) {
+	switch x := v.(type) {
+	case *ssa.Field:
+		return x.X, FieldOf(x)
+	case *ssa.UnOp:
+		if x.Op == token.MUL {
+			if fa, ok := x.X.(*ssa.FieldAddr); ok {
+				return fa.X, FieldOf(fa)
+			}
+		}
+	}
+	return nil, nil
+}
+
+// GetterField: when the method called name of type t (or *t) is a plain
+// getter - one block that returns a field of its receiver - the field it
+// returns; nil otherwise. from supplies the program.
+func GetterField(from ssa.Value, t types.Type, name string) *types.Var {
+	if from == nil || from.Parent() == nil {
+		return nil
+	}
+	prog := from.Parent().Prog
+	if p, ok := t.Underlying().(*types.Pointer); ok {
+		t = p.Elem()
+	}
+	for _, recv := range []types.Type{t, types.NewPointer(t)} {
+		ms := prog.MethodSets.MethodSet(recv)
+		for i := 0; i < ms.Len(); i++ {
+			sel := ms.At(i)
+			if sel.Obj().Name() != name {
+				continue
+			}
+			fn := prog.MethodValue(sel)
+			if fn == nil || len(fn.Blocks) != 1 || len(fn.Params) != 1 {
+				continue
+			}
+			ret, ok := fn.Blocks[0].Instrs[len(fn.Blocks[0].Instrs)-1].(*ssa.Return)
+			if !ok || len(ret.Results) != 1 {
+				continue
+			}
+			base, fld := fieldRead(Unwrap(ret.Results[0]))
+			if fld != nil && Unwrap(base) == ssa.Value(fn.Params[0]) {
+				return fld
+			}
+		}
+	}
+	return nil
 }
